@@ -719,7 +719,7 @@ func (s *simLocal) DeleteRedundantCopies(_ context.Context, addr oid.Address, id
 		switch {
 		case o == nil || s.me().store[addr] == nil:
 			w.r.Report("policer-delete", "shard copies of an object the node does not store are removed", "%s", nm)
-		case o.typ == object.TypeLock || o.typ == object.TypeLink:
+		case (o.typ == object.TypeLock || o.typ == object.TypeLink) && o.pl != nil && o.pl.listed(s.owner):
 			w.r.Report("policer-delete", "shard copy of a LOCK/LINK object removed from a container node", "%s (%s) held on shards %v: DeleteRedundantCopies(%v)", nm, o.typ, have, ids)
 		case len(ids) < 2:
 			w.r.Probe("DeleteRedundantCopies called with fewer than two shards")
@@ -1121,6 +1121,9 @@ func (w *world) checkRemoval(owner int, addr oid.Address) {
 			exact = true
 		}
 	}
+	if listedInREP {
+		r.Probe("removal by a container node with enough confirmed holders in every rule")
+	}
 	if exact {
 		r.Probe("removal allowed with exactly the minimum confirmations")
 	}
@@ -1258,6 +1261,20 @@ func runC26(r *simkit.R) {
 	nobj := 1 + r.Intn(4)
 	for i := 0; i < nobj; i++ {
 		pl := w.drawPlacement(tpl, eligible, 5)
+		if r.Bool(30) {
+			// the local node as a backup node: last in every list that has it
+			for _, ls := range [][][]int{pl.repLists, pl.ecLists} {
+				for _, l := range ls {
+					for k := range l {
+						if l[k] == local {
+							copy(l[k:], l[k+1:])
+							l[len(l)-1] = local
+							break
+						}
+					}
+				}
+			}
+		}
 		var o *simObj
 		if len(tpl.ecRules) > 0 && (len(tpl.copies) == 0 && r.Bool(80) || len(tpl.copies) > 0 && r.Bool(50)) {
 			k := r.Intn(len(tpl.ecRules))
@@ -1292,8 +1309,9 @@ func runC26(r *simkit.R) {
 			}
 			typ := []object.Type{object.TypeRegular, object.TypeTombstone, object.TypeLock, object.TypeLink}[r.Weighted(regW, 2, 2, 2)]
 			o = w.newPlain(typ, pl)
+			holdPct := []int{50, 90, 15}[r.Intn(3)]
 			for _, nd := range w.nodes {
-				if nd.idx != local && r.Bool(50) {
+				if nd.idx != local && r.Bool(holdPct) {
 					w.storeOn(nd, o)
 				}
 			}
@@ -1326,7 +1344,9 @@ func runC26(r *simkit.R) {
 		if o.isPart {
 			r.Probe("EC part processed")
 		}
+		t0 := time.Now() // simulated clock
 		pn.p.processObject(ctx, a)
+		r.AddSimTime(time.Since(t0))
 		if r.Violated() {
 			r.Stop()
 		}
